@@ -8,24 +8,49 @@ SUB = "swcgeom/core/swc_utils/subtree.py"
 REMOVAL = -2
 
 
+PPOS = z3.Function("parent_pos", z3.IntSort(), z3.IntSort())  # ghost: position of a kept entry's parent entry
+
+
+def sub_pre(which):
+    """preconditions of to_sub_topology: the kept entries carry pairwise distinct ids, and the parent id of a kept entry
+    is -1 or the id of a KEPT entry (ghost PPOS) -- otherwise the dict lookup raises KeyError"""
+    def f(E, v, o):
+        sid, spid = v["sub"]
+        n = sid.nz()
+        i, j = z3.Int(fresh_name("i")), z3.Int(fresh_name("j"))
+        kept = lambda t: z3.And(t >= 0, t < n, z3.Select(sid.arr, t) != REMOVAL)
+        if which == "same-length":
+            return spid.nz() == n
+        if which == "kept-ids-pairwise-distinct":
+            return z3.ForAll([i, j], z3.Implies(z3.And(kept(i), kept(j), i != j), z3.Select(sid.arr, i) != z3.Select(sid.arr, j)))
+        return z3.ForAll([i], z3.Implies(z3.And(kept(i), z3.Select(spid.arr, i) != -1), z3.And(kept(PPOS(i)), z3.Select(sid.arr, PPOS(i)) == z3.Select(spid.arr, i))))
+
+    return (which, f)
+
+
+def sub_result(S, fr):
+    """shape of to_sub_topology's result at call sites: fresh arrays of one length m with the ghost maps kappa / rho"""
+    m = S.int("m")
+    S.assume(m.z >= 0)
+    new_id, new_pid, mapping = SArr.fresh("int", m.z, name="new_id"), SArr.fresh("int", m.z, name="new_pid"), SArr.fresh("int", m.z, name="mapping")
+    tag = fresh_name("sub")
+    mapping.kappa = z3.Function("kappa_" + tag, z3.IntSort(), z3.IntSort())
+    mapping.rho = z3.Function("rho_" + tag, z3.IntSort(), z3.IntSort())
+    return ((new_id, new_pid), mapping)
+
+
 def register(R: Registry):
     def setup(S):
         n = S.int("n")
         S.assume(n.z >= 0)
         sid, spid = S.arr("int", n=n, name="sub_id"), S.arr("int", n=n, name="sub_pid")
         sid.frozen = spid.frozen = True
-        # ghost: position of each kept entry's parent entry
-        pp = z3.Function("parent_pos", z3.IntSort(), z3.IntSort())
-        i, j = z3.Ints("i j")
-        kept = lambda t: z3.And(t >= 0, t < n.z, z3.Select(sid.arr, t) != REMOVAL)
-        S.assume(z3.ForAll([i, j], z3.Implies(z3.And(kept(i), kept(j), i != j), z3.Select(sid.arr, i) != z3.Select(sid.arr, j))))
-        S.assume(z3.ForAll([i], z3.Implies(z3.And(kept(i), z3.Select(spid.arr, i) != -1), z3.And(kept(pp(i)), z3.Select(sid.arr, pp(i)) == z3.Select(spid.arr, i)))))
-        return dict(sub=(sid, spid), sid=sid, spid=spid)
+        return dict(sub=(sid, spid))
 
     def post(which):
         def f(E, v, o):
             (new_id, new_pid), mapping = v["result"]
-            sid, spid = o["sid"], o["spid"]
+            sid, spid = o["sub"]
             kappa, rho = mapping.kappa, mapping.rho
             n, m = sid.nz(), mapping.nz()
             k, i = z3.Ints(fresh_name("k") + " " + fresh_name("i"))
@@ -53,6 +78,8 @@ def register(R: Registry):
         f"{SUB}:to_sub_topology",
         prop="C06",
         setup=setup,
+        requires=[sub_pre("same-length"), sub_pre("kept-ids-pairwise-distinct"), sub_pre("kept-parents-are-kept-entries")],
+        returns=sub_result,
         ensures=[("mapping-is-the-kept-ids-in-order", post("mapping")), ("new-ids-are-positions", post("ids")),
                  ("parents-remapped-roots-kept", post("pids")), ("outputs-are-fresh", post("fresh"))],
     )
@@ -64,7 +91,8 @@ def register_propagate(R):
     from pyvc.traverse_rule import Rule
 
     I, B = z3.IntSort(), z3.BoolSort()
-    Rm = z3.Function("Rm", I, B)   # ghost: node is marked, or lies below a marked node (least solution on a well-formed table)
+    # ghost Rm: node is marked, or lies below a marked node -- a fresh symbol per call, defined by define_rm and kept in
+    # E.spec_extra["Rm"] (so the clauses of a caller can speak about the closure of ITS call)
 
     def setup(S):
         n = S.int("n")
@@ -74,26 +102,29 @@ def register_propagate(R):
         i = z3.Int("i_pr")
         P, A = pids.arr, new_ids.arr
         R_ = lambda t: z3.And(t >= 0, t < n.z)
-        # well-formed parent table (the marks live in the id array, so ids themselves are not positions here)
-        S.assume(z3.Select(P, 0) == -1)
-        S.assume(z3.ForAll([i], z3.Implies(z3.And(i > 0, i < n.z), R_(z3.Select(P, i)))))
-        S.assume(depth(0) == 0)
-        S.assume(z3.ForAll([i], z3.Implies(z3.And(i > 0, i < n.z), z3.And(depth(i) == depth(z3.Select(P, i)) + 1, depth(i) > 0))))
-        # ghost definition of the removal closure over the ENTRY marks
-        S.assume(z3.ForAll([i], z3.Implies(R_(i), Rm(i) == z3.Or(z3.Select(A, i) == REMOVAL, z3.And(z3.Select(P, i) >= 0, Rm(z3.Select(P, i)))))))
         return dict(topology=(new_ids, pids))
 
+    def define_rm(E, old):
+        """ghost definition of the removal closure over the ENTRY marks (least solution on a well-formed table)"""
+        ids0, pids0 = old["topology"]
+        i = z3.Int(fresh_name("i"))
+        rm = z3.Function(fresh_name("Rm"), I, B)
+        E.spec_extra["Rm"] = rm
+        E.assume(z3.ForAll([i], z3.Implies(z3.And(i >= 0, i < ids0.nz()), rm(i) == z3.Or(z3.Select(ids0.arr, i) == REMOVAL, z3.And(z3.Select(pids0.arr, i) >= 0, rm(z3.Select(pids0.arr, i)))))))
+
     def J(E, v, ENT, LEFT, ctx):
+        Rm = E.spec_extra["Rm"]
         cur, old = v["new_ids"].arr, E.top_old["topology"][0].arr
         x = z3.Int(fresh_name("x"))
         return z3.ForAll([x], z3.Implies(ctx.R(x), z3.If(z3.Select(ENT, x), z3.And((z3.Select(cur, x) == REMOVAL) == Rm(x), z3.Implies(z3.Not(Rm(x)), z3.Select(cur, x) == z3.Select(old, x))),
                                                          z3.Select(cur, x) == z3.Select(old, x))))
 
     def Qe(E, v, x, val, ctx):
-        return to_z3(E.truth(val), "bool") == Rm(x)
+        return to_z3(E.truth(val), "bool") == E.spec_extra["Rm"](x)
 
     def post(which):
         def f(E, v, o):
+            Rm = E.spec_extra["Rm"]
             new_ids2, pids2 = v["result"]
             ids0, pids0 = o["topology"]
             n = ids0.nz()
@@ -106,11 +137,30 @@ def register_propagate(R):
             if which == "parents-returned-as-a-fresh-equal-copy":
                 return z3.And(pids2.uid not in E.entry_uids, pids2.nz() == n, z3.ForAll([x], z3.Implies(R_(x), pids2.get(x).z == pids0.get(x).z)))
             if which == "marks-in-place":
-                return new_ids2 is v["topology"][0]
+                return new_ids2 is o["topology"][0] or new_ids2 is v["topology"][0] or new_ids2.uid == o["topology"][0].uid
 
         return f
 
+    def wf_pre(which):
+        def f(E, v, o):
+            ids0, pids0 = v["topology"]
+            n, P = ids0.nz(), pids0.arr
+            i = z3.Int(fresh_name("i"))
+            if which == "same-length":
+                return z3.And(pids0.nz() == n, n >= 1)
+            if which == "node-0-is-the-root-and-parents-exist":
+                return z3.And(z3.Select(P, 0) == -1, z3.ForAll([i], z3.Implies(z3.And(i > 0, i < n), z3.And(z3.Select(P, i) >= 0, z3.Select(P, i) < n))))
+            return z3.And(depth(0) == 0, z3.ForAll([i], z3.Implies(z3.And(i > 0, i < n), z3.And(depth(i) == depth(z3.Select(P, i)) + 1, depth(i) > 0))))
+
+        return (which, f)
+
+    def pr_result(S, fr):
+        ids0, pids0 = fr.vars["topology"]
+        return (ids0, SArr.fresh("int", pids0.nz(), name="pids_copy"))
+
     R.add(f"{SUB}:propagate_removal", prop="C06", setup=setup,
+          requires=[wf_pre("same-length"), wf_pre("node-0-is-the-root-and-parents-exist"), wf_pre("every-node-reaches-the-root")],
+          ghost_entry=define_rm, returns=pr_result, modifies=["topology[0]"],
           ensures=[(nm, post(nm)) for nm in ("marked-exactly-the-removal-closure", "survivors-keep-their-id", "parents-returned-as-a-fresh-equal-copy", "marks-in-place")],
           options=dict(traverse_rule=Rule(J, Qe=Qe, modifies=["new_ids"], enter_kind="bool")),
           notes="the id array is marked IN PLACE (documented); callers must hand in a private copy — that is an obligation of to_subtree")
@@ -122,3 +172,289 @@ _reg6 = register
 def register(R):  # noqa: F811
     _reg6(R)
     register_propagate(R)
+
+
+# =========================================================================== to_subtree_impl / to_subtree / get_subtree_impl / get_subtree
+IMPL = "swcgeom/core/tree_utils_impl.py"
+
+
+class GhostList:
+    """marker class of a ghost-state object"""
+
+TU = "swcgeom/core/tree_utils.py"
+EXTRA6 = "w"
+
+
+def register_subtree(R):
+    from contracts.C04 import depth
+    from contracts.common import COLS, assume_wf, col, nof, sym_tree
+    from pyvc.traverse_rule import Rule
+    from pyvc.values import Obj, PDict, PList
+
+    I = z3.IntSort()
+    sel = z3.Select
+
+    def wf_tree(S, name="t"):
+        """a well-formed input tree (ids = positions, node 0 the root, parents exist, depth witness) with an extra column; frozen"""
+        t = sym_tree(S, name, frozen=True, extra_cols=(EXTRA6,))
+        n = nof(t)
+        i = z3.Int(fresh_name("i"))
+        idc, pid = col(t, "id").arr, col(t, "pid").arr
+        S.assume(z3.ForAll([i], z3.Implies(z3.And(i >= 0, i < n), sel(idc, i) == i)))
+        S.assume(sel(pid, 0) == -1)
+        S.assume(z3.ForAll([i], z3.Implies(z3.And(i > 0, i < n), z3.And(sel(pid, i) >= 0, sel(pid, i) < n))))
+        S.assume(depth(0) == 0)
+        S.assume(z3.ForAll([i], z3.Implies(z3.And(i > 0, i < n), z3.And(depth(i) == depth(sel(pid, i)) + 1, depth(i) > 0))))
+        return t
+
+    def all_cols(t):
+        return dict(t.fields["ndata"].items)
+
+    # ------------------------------------------------------------------ to_subtree_impl
+    def impl_setup(kind):
+        def f(S):
+            t = wf_tree(S)
+            n = nof(t)
+            sid, spid = S.arr("int", n=S.int("sn"), name="sub_id"), S.arr("int", name="sub_pid")
+            out = None if kind == "none" else PList([7, 8])
+            return dict(swc_like=t, sub=(sid, spid), out_mapping=out)
+
+        return f
+
+    def impl_pre_inrange(E, v, o):
+        sid, _ = v["sub"]
+        i = z3.Int(fresh_name("i"))
+        return z3.ForAll([i], z3.Implies(z3.And(i >= 0, i < sid.nz(), sid.get(i).z != REMOVAL), z3.And(sid.get(i).z >= 0, sid.get(i).z < nof(v["swc_like"]))))
+
+    def topo_call(E):
+        calls = [kw for nm, kw in E.call_log if nm == "to_sub_topology"]
+        return calls[0] if len(calls) == 1 else None
+
+    def impl_post(which):
+        def f(E, v, o):
+            c = topo_call(E)
+            if c is None:
+                return False
+            (new_id, new_pid), mapping = c["__result__"]
+            n_nodes, ndata, source, names = v["result"]
+            t = o["swc_like"]
+            m = mapping.nz()
+            k = z3.Int(fresh_name("k"))
+            if which == "node-count-is-the-number-of-kept-entries":
+                return to_z3(n_nodes, "int") == m
+            if which == "every-attribute-column-is-gathered-through-the-mapping-into-fresh-storage":
+                if not isinstance(ndata, PDict) or set(ndata.items) != set(all_cols(t)):
+                    return False
+                out = []
+                for cname, src in all_cols(t).items():
+                    if cname in ("id", "pid"):
+                        continue
+                    a = ndata.items[cname]
+                    if a.uid in E.entry_uids:
+                        return False
+                    out.append(z3.And(a.nz() == m, z3.ForAll([k], z3.Implies(z3.And(k >= 0, k < m), a.get(k).z == src.get(mapping.get(k).z).z))))
+                return z3.And(*out)
+            if which == "ids-and-parents-are-the-sub-topology":
+                return ndata.items["id"] is new_id and ndata.items["pid"] is new_pid
+            if which == "source-and-names-kept":
+                return source is t.fields["source"] or source == t.fields["source"]
+            if which == "mapping-reported":
+                om = v["out_mapping"]
+                if om is None:
+                    return True
+                if om.items is not None:
+                    return False
+                return z3.And(zint(om.n) == m, z3.ForAll([k], z3.Implies(z3.And(k >= 0, k < m), z3.Select(om.cols[0], k) == mapping.get(k).z)))
+            raise KeyError(which)
+
+        return f
+
+    IMPL_POSTS = ["node-count-is-the-number-of-kept-entries", "every-attribute-column-is-gathered-through-the-mapping-into-fresh-storage",
+                  "ids-and-parents-are-the-sub-topology", "source-and-names-kept", "mapping-reported"]
+
+    def impl_result(S, fr):
+        t = fr.vars["swc_like"]
+        m = S.int("m")
+        nd = PDict({c: SArr.fresh(a.kind, m.z, name="sub_" + c) for c, a in all_cols(t).items()})
+        return (m, nd, t.fields["source"], t.fields["names"])
+
+    R.add(f"{IMPL}:to_subtree_impl", prop="C06",
+          variants={"no-mapping-requested": impl_setup("none"), "mapping-into-a-list": impl_setup("list")},
+          requires=[sub_pre("same-length"), sub_pre("kept-ids-pairwise-distinct"), sub_pre("kept-parents-are-kept-entries"), ("kept-ids-are-nodes-of-the-tree", impl_pre_inrange)],
+          ensures=[(nm, impl_post(nm)) for nm in IMPL_POSTS],
+          notes="the dict form of out_mapping is covered by the bounded stand-in only")
+
+    # ------------------------------------------------------------------ to_subtree
+    def ts_setup(S):
+        t = wf_tree(S)
+        n = nof(t)
+        rem = S.plist("int", name="removals")
+        j, i = z3.Int(fresh_name("j")), z3.Int(fresh_name("i"))
+        S.assume(z3.ForAll([j], z3.Implies(z3.And(j >= 0, j < zint(rem.n)), z3.And(sel(rem.cols[0], j) >= 0, sel(rem.cols[0], j) < n))))
+        # ghost definition: a kept entry's parent entry is the parent node (ids are positions)
+        S.assume(z3.ForAll([i], PPOS(i) == sel(col(t, "pid").arr, i)))
+        return dict(swc_like=t, removals=rem, out_mapping=None)
+
+    def ts_inv(which):
+        def f(E, v, o):
+            t = v["swc_like"]
+            n = nof(t)
+            rem = v["removals"]
+            k = to_z3(v["_k0"], "int")
+            x, j = z3.Int(fresh_name("x")), z3.Int(fresh_name("j"))
+            a = v["new_ids"]
+            listed = z3.Exists([j], z3.And(j >= 0, j < k, sel(rem.cols[0], j) == x))
+            if which == "marks-so-far":
+                return z3.And(a.nz() == n, a.uid not in E.entry_uids, z3.ForAll([x], z3.Implies(z3.And(x >= 0, x < n), a.get(x).z == z3.If(listed, z3.IntVal(REMOVAL), x))))
+
+        return f
+
+    def ts_post(which):
+        def f(E, v, o):
+            res = v["result"]
+            t = o["swc_like"]
+            if not isinstance(res, Obj):
+                return False
+            Rm = E.spec_extra["Rm"]
+            c = topo_call(E)
+            if c is None:
+                return False
+            (new_id, new_pid), mapping = c["__result__"]
+            kappa, rho = mapping.kappa, mapping.rho
+            n, m = nof(t), mapping.nz()
+            k, x, j = z3.Int(fresh_name("k")), z3.Int(fresh_name("x")), z3.Int(fresh_name("j"))
+            rem = o["removals"]
+            pid0 = col(t, "pid").arr
+            rc = all_cols(res)
+            if which == "removal-closure-is-removed-or-below-a-removed-node":
+                # Rm is THE closure of the requested removals
+                return z3.ForAll([x], z3.Implies(z3.And(x >= 0, x < n), Rm(x) == z3.Or(z3.Exists([j], z3.And(j >= 0, j < zint(rem.n), sel(rem.cols[0], j) == x)),
+                                                                                       z3.And(sel(pid0, x) >= 0, Rm(sel(pid0, x))))))
+            if which == "survivors-are-exactly-the-nodes-outside-the-closure-in-order":
+                return z3.And(z3.ForAll([k], z3.Implies(z3.And(k >= 0, k < m), z3.And(mapping.get(k).z >= 0, mapping.get(k).z < n, z3.Not(Rm(mapping.get(k).z)), mapping.get(k).z == kappa(k)))),
+                              z3.ForAll([k, j], z3.Implies(z3.And(0 <= k, k < j, j < m), mapping.get(k).z < mapping.get(j).z)),
+                              z3.ForAll([x], z3.Implies(z3.And(x >= 0, x < n, z3.Not(Rm(x))), z3.And(rho(x) >= 0, rho(x) < m, mapping.get(rho(x)).z == x))))
+            if which == "survivors-keep-every-attribute":
+                out = [set(rc) == set(all_cols(t))]
+                for cname, src in all_cols(t).items():
+                    if cname in ("id", "pid"):
+                        continue
+                    a = rc[cname]
+                    out.append(z3.And(a.nz() == m, z3.ForAll([k], z3.Implies(z3.And(k >= 0, k < m), a.get(k).z == src.get(mapping.get(k).z).z))))
+                return z3.And(*[q if not isinstance(q, bool) else z3.BoolVal(q) for q in out])
+            if which == "ids-are-positions-and-parent-relation-kept":
+                q = rc["pid"].get(k).z
+                p = sel(pid0, mapping.get(k).z)
+                return z3.And(rc["id"].nz() == m, rc["pid"].nz() == m,
+                              z3.ForAll([k], z3.Implies(z3.And(k >= 0, k < m), z3.And(rc["id"].get(k).z == k, z3.If(p == -1, q == -1, z3.And(q >= 0, q < m, mapping.get(q).z == p))))))
+            if which == "result-shares-no-storage-with-the-input":
+                return all(a.uid not in E.entry_uids for a in rc.values())
+            raise KeyError(which)
+
+        return f
+
+    TS_POSTS = ["removal-closure-is-removed-or-below-a-removed-node", "survivors-are-exactly-the-nodes-outside-the-closure-in-order", "survivors-keep-every-attribute",
+                "ids-are-positions-and-parent-relation-kept", "result-shares-no-storage-with-the-input"]
+    R.add(f"{TU}:to_subtree", prop="C06", setup=ts_setup,
+          ensures=[(nm, ts_post(nm)) for nm in TS_POSTS],
+          loops={0: dict(invariant=[("marks-so-far", ts_inv("marks-so-far"))])},
+          notes="the input tree is frozen (any store into it is a failed frame obligation); removals may repeat and come in any order")
+
+
+    # ------------------------------------------------------------------ get_subtree_impl (traverse client rule)
+    def gs_setup(S):
+        t = wf_tree(S)
+        r = S.int("start")
+        S.assume(z3.And(r.z >= 0, r.z < nof(t)))
+        G = Obj(GhostList, dict(at=SArr(z3.K(I, z3.IntVal(-1)), nof(t), "int", name="at")))  # ghost: at[x] = position of node x in `ids`
+        return dict(swc_like=t, n=r, out_mapping=None, G6=G)
+
+    def list_view(L):
+        if L.items is None:
+            return L.cols[0], zint(L.n)
+        a = z3.K(I, z3.IntVal(0))
+        for k, x in enumerate(L.items):
+            a = z3.Store(a, k, to_z3(x, "int"))
+        return a, z3.IntVal(len(L.items))
+
+    def gs_J(E, v, ENT, LEFT, ctx):
+        """`ids` lists exactly the entered nodes, each once (ghost inverse at), the start node first and every other node after its parent"""
+        A, ln = list_view(v["ids"])
+        at = v["G6"].fields["at"].arr
+        a, x = z3.Int(fresh_name("a")), z3.Int(fresh_name("x"))
+        inl = lambda t: z3.And(t >= 0, t < ln)
+        return z3.And(
+            ln >= 0,
+            z3.ForAll([a], z3.Implies(inl(a), z3.And(sel(ENT, sel(A, a)), sel(at, sel(A, a)) == a))),
+            z3.ForAll([x], z3.Implies(sel(ENT, x), z3.And(inl(sel(at, x)), sel(A, sel(at, x)) == x))),
+            z3.Implies(ln > 0, sel(A, 0) == ctx.root),
+            z3.ForAll([a], z3.Implies(z3.And(a > 0, a < ln), z3.And(sel(ENT, sel(ctx.P, sel(A, a))), sel(at, sel(ctx.P, sel(A, a))) < a))))
+
+    def gs_ghost_enter(E, v, x, ctx):
+        A, ln = list_view(v["ids"])
+        G = v["G6"]
+        G.fields["at"].arr = z3.Store(G.fields["at"].arr, x, ln - 1)
+
+    def gs_define_ppos(E, v, o):
+        """ghost definition: the parent entry of list entry a is the list position of a's parent node"""
+        A, ln = list_view(v["ids"])
+        t = v["swc_like"]
+        P = col(t, "pid").arr
+        at = v["G6"].fields["at"].arr
+        a = z3.Int(fresh_name("a"))
+        E.assume(z3.ForAll([a], PPOS(a) == sel(at, sel(P, sel(A, a)))))
+        return True
+
+    def gs_post(which):
+        def f(E, v, o):
+            c = topo_call(E)
+            if c is None:
+                return False
+            (new_id, new_pid), mapping = c["__result__"]
+            n_nodes, ndata, source, names = v["result"]
+            t = o["swc_like"]
+            n, m, root = nof(t), mapping.nz(), to_z3(o["n"], "int")
+            P = col(t, "pid").arr
+            k, x, j = z3.Int(fresh_name("k")), z3.Int(fresh_name("x")), z3.Int(fresh_name("j"))
+            Sub = E.ghost.get("last-traverse-Sub")
+            if which == "exactly-the-start-node-and-its-descendants-each-once":
+                if Sub is None:
+                    return False
+                return z3.And(to_z3(n_nodes, "int") == m,
+                              z3.ForAll([k], z3.Implies(z3.And(k >= 0, k < m), Sub(mapping.get(k).z))),
+                              z3.ForAll([k, j], z3.Implies(z3.And(k >= 0, k < m, j >= 0, j < m, k != j), mapping.get(k).z != mapping.get(j).z)),
+                              z3.ForAll([x], z3.Implies(Sub(x), z3.Exists([k], z3.And(k >= 0, k < m, mapping.get(k).z == x)))))
+            if which == "start-node-is-the-new-root-without-parent":
+                return z3.And(m > 0, mapping.get(0).z == root, ndata.items["pid"].get(0).z == -1)
+            if which == "parents-precede-children-and-the-parent-relation-is-kept":
+                q = ndata.items["pid"].get(k).z
+                return z3.ForAll([k], z3.Implies(z3.And(k > 0, k < m), z3.And(q >= 0, q < k, mapping.get(q).z == sel(P, mapping.get(k).z))))
+            if which == "survivors-keep-every-attribute-in-fresh-storage":
+                out = []
+                for cname, src in all_cols(t).items():
+                    if cname in ("id", "pid"):
+                        continue
+                    a = ndata.items[cname]
+                    if a.uid in E.entry_uids:
+                        return False
+                    out.append(z3.And(a.nz() == m, z3.ForAll([k], z3.Implies(z3.And(k >= 0, k < m), a.get(k).z == src.get(mapping.get(k).z).z))))
+                return z3.And(ndata.items["id"].nz() == m, z3.ForAll([k], z3.Implies(z3.And(k >= 0, k < m), ndata.items["id"].get(k).z == k)), *out)
+            raise KeyError(which)
+
+        return f
+
+    GS_POSTS = ["exactly-the-start-node-and-its-descendants-each-once", "start-node-is-the-new-root-without-parent",
+                "parents-precede-children-and-the-parent-relation-is-kept", "survivors-keep-every-attribute-in-fresh-storage"]
+    R.add(f"{IMPL}:get_subtree_impl", prop="C06", setup=gs_setup,
+          ensures=[(nm, gs_post(nm)) for nm in GS_POSTS],
+          options=dict(traverse_rule=Rule(gs_J, modifies=[("ids", "int"), "G6"], enter_kind="oref", ghost_enter=gs_ghost_enter),
+                       asserts_after={"sub_ids": [("parent-entry-choice-function", gs_define_ppos)]}),
+          notes="mapping = the pre-order list of the subtree; the input is frozen")
+
+
+_reg6b = register
+
+
+def register(R):  # noqa: F811
+    _reg6b(R)
+    register_subtree(R)
